@@ -162,6 +162,32 @@ func c14Case(c *core.Ctx, idx int) {
 			}
 		}
 	}
+	// a Descriptor is the caller's to keep and to change: renaming, re-indexing and re-slicing every
+	// level of one copy leaves the next one as it was
+	{
+		mine := codec.Descriptor()
+		scribbleDesc(&mine, 0)
+		next := codec.Descriptor()
+		rec.Eval(1)
+		if diff := model.DescDiff(want, realDesc{&next}, "$", true); diff != "" {
+			rec.Violation("descriptor", fmt.Sprintf("after the caller changed the Descriptor it had been given (names, indexes, element lists at every level), the next Descriptor() of the same codec no longer mirrors the type [%s]: %s\n  type %s", tc.name, diff, typeString(tc.typ)), map[string]any{"type": typeString(tc.typ)})
+			return
+		}
+		// ... and so does decoding a stored descriptor of another type into the variable
+		other := plenccodec.Descriptor{Type: plenccodec.FieldTypeStruct, TypeName: "Other", Elements: []plenccodec.Descriptor{{Index: 1, Name: "A", Type: plenccodec.FieldTypeString}, {Index: 2, Name: "B", Type: plenccodec.FieldTypeSlice, Elements: []plenccodec.Descriptor{{Type: plenccodec.FieldTypeInt}}}}}
+		if od, err, pn := marshal(tc.p, nil, &other); err == nil && pn == "" {
+			again := codec.Descriptor()
+			if err, pn := unmarshal(tc.p, od, &again); err == nil && pn == "" {
+				next = codec.Descriptor()
+				rec.Eval(1)
+				if diff := model.DescDiff(want, realDesc{&next}, "$", true); diff != "" {
+					rec.Violation("descriptor", fmt.Sprintf("after a stored descriptor was decoded into the variable that held the codec's Descriptor, the next Descriptor() no longer mirrors the type [%s]: %s\n  type %s", tc.name, diff, typeString(tc.typ)), map[string]any{"type": typeString(tc.typ)})
+					return
+				}
+			}
+		}
+		rec.Count("descriptors_changed_by_the_caller", 1)
+	}
 	n := countDesc(&d)
 	rec.Count("descriptor_nodes", n)
 	if n > 2 {
@@ -185,6 +211,22 @@ func c14Case(c *core.Ctx, idx int) {
 	if rec.WantSample() && n > 3 && n < 12 {
 		js, _ := json.Marshal(d)
 		rec.Sample(map[string]any{"config": tc.name, "type": typeString(tc.typ), "descriptor": string(js)})
+	}
+}
+
+// scribbleDesc changes everything a caller can reach in its copy of a Descriptor
+func scribbleDesc(d *plenccodec.Descriptor, depth int) {
+	d.Name = "scribbled"
+	d.TypeName = "Scribbled"
+	d.Index = 9999 + depth
+	d.ExplicitPresence = !d.ExplicitPresence
+	for i := range d.Elements {
+		scribbleDesc(&d.Elements[i], depth+1)
+	}
+	if len(d.Elements) > 0 {
+		d.Elements[0].Type = plenccodec.FieldTypeBool
+		d.Elements[0].Elements = nil
+		d.Elements = d.Elements[:len(d.Elements)-1]
 	}
 }
 
